@@ -325,8 +325,15 @@ def shrink(suite, bad, kind, proj_model, proj_spec, seqdiff, workdir, budget=150
     def fails(cand):
         k, f, _, _ = eval_case(suite, header, cand, proj_model, proj_spec, seqdiff, workdir)
         return (k if kind == "k" else f) is not None
-    if not fails(ops):
-        return bad  # depends on the suffix (should not happen) — keep the original
+    # a disagreement must REPLAY: the case is run again alone (prefix up to the bad op, then the whole case), three times
+    # each.  One that never shows again is not a replayable counterexample (e.g. a goroutine of the library that was
+    # still finishing under CPU starvation moved a substitute clock): the caller records it as unreproduced.
+    if not any(fails(ops) for _ in range(3)):
+        full = list(bad["ops"])
+        if full != ops and any(fails(full) for _ in range(2)):
+            ops = full
+        else:
+            return dict(bad, unreproduced=True)
     n = 2
     t_end = time.time() + 90      # slow replays (a hanging call costs seconds each): bounded minimisation
     while len(ops) >= 2 and budget > 0 and time.time() < t_end:
